@@ -149,3 +149,35 @@ def run(ctx):
     plain = [y for y in ys if y.value is None]
     final = [y for y in ys if y.value is not None]
     ctx.ob("C35.R5", ds, "exactly two more bytes are consumed before the packet is yielded", len(plain) == 2 and len(final) == 1, construct="two-crc-bytes", node=t)
+    _dispatch(ctx)
+
+
+def _dispatch(ctx):
+    """R6: every byte that arrives outside a packet is looked at by the dispatch ($, +, -): the skip branch consumes
+    exactly one byte per pass"""
+    ctx.rule("C35.R6", "decoder: outside a packet every byte goes through the dispatch on `$`, `+`, `-`; skipping an unknown byte consumes that byte only, so an acknowledgement right after line noise still reaches the ack queue", floor=3)
+    dec = ctx.fn(F, "decoder")
+    site = F + ":decoder"
+    outer = [n for n in dec.body if isinstance(n, ast.While)]
+    ctx.need(len(outer) == 1 and len(outer[0].body) == 1 and isinstance(outer[0].body[0], ast.If), "decoder: top-level dispatch loop not found")
+    chain = []
+    cur = outer[0].body[0]
+    while True:
+        chain.append((cur.test, cur.body))
+        if len(cur.orelse) == 1 and isinstance(cur.orelse[0], ast.If):
+            cur = cur.orelse[0]
+        else:
+            chain.append((None, cur.orelse))
+            break
+    tests = [norm(t) if t is not None else "else" for t, _ in chain]
+    ctx.ob("C35.R6", site, "the dispatch distinguishes packet start, acknowledgements and everything else", len(chain) == 3 and "b'$'" in tests[0] and "b'+'" in tests[1] and "b'-'" in tests[1] and tests[2] == "else", construct="dispatch-arms", detail=str(tests))
+    if len(chain) == 3:
+        skip = chain[2][1]
+        loops = [x for s in skip for x in ast.walk(s) if isinstance(x, (ast.While, ast.For))]
+        yields = [x for s in skip for x in ast.walk(s) if isinstance(x, ast.Yield)]
+        ctx.ob("C35.R6", site, "the skip arm takes exactly one further byte and returns to the dispatch (no inner loop that reads on until `$`)", not loops and len(yields) == 1, construct="skip-one-byte", node=loops[0] if loops else None,
+               detail="%d loop(s), %d yield(s) in the skip arm" % (len(loops), len(yields)))
+        ack = chain[1][1]
+        ay = [x for s in ack for x in ast.walk(s) if isinstance(x, ast.Yield)]
+        ok = len(ay) == 1 and ay[0].value is not None and "decode" in norm(ay[0].value) and not [x for s in ack for x in ast.walk(s) if isinstance(x, (ast.While, ast.For))]
+        ctx.ob("C35.R6", site, "an acknowledgement byte is yielded as its own message and the next byte is dispatched again", ok, construct="ack-one-byte")
